@@ -7,7 +7,7 @@ PROP = "C09"
 def run(tier, seed, t0):
     return _sess.run_session_check(
         PROP, tier, seed, t0,
-        families=[("chanclose", 500, 8000), ("chclose_cross", 150, 3000), ("midframe_close", 60, 1000),
+        families=[("chanclose", 500, 8000), ("chclose_cross", 150, 3000), ("midframe_close", 60, 1000), ("cancel_close_race", 9, 90),
                   ("mixed", 150, 2000)],
         own_kinds=('chanclose', 'chclose-cross', 'backlog-midframe'),
         mc_jobs=[("MC_Conn_chclose_q.cfg", None, None), ("MC_Conn_chclose_bug.cfg", "ChanCloseScoped", None),
@@ -19,7 +19,8 @@ def run(tier, seed, t0):
              "crossings (the client's own Close of that channel is in flight when the server closes it, the server then "
              "acknowledges the client's Close too, in the same burst or later, or not at all); plus closes that arrive "
              "while the transport is stalled in the middle of another channel's frame (the CloseOk may only follow whole "
-             "frames). non-trivial = "
+             "frames); plus the race of the fix 9584766: the call in flight is the cancel of one of 600-1200 consumers of "
+             "the channel, the server answers with a close, the caller drops its Consumer the moment it has the error. non-trivial = "
              "the closed channel had a consumer, a call in flight or half-received content; distinct = distinct step lists",
         nontrivial=lambda s: any(x.get("do") == "consume" or x.get("async") for x in s["steps"]),
         assumptions=_sess.COMMON_ASSUMPTIONS + [
